@@ -103,6 +103,7 @@ class Observer:
         self.decisions: list = []
         self.sql_log: list = []
         self.unmapped: list = []
+        self.errors: list = []
 
     # -- helpers
     def fkey_of(self, code):
@@ -172,7 +173,7 @@ class Observer:
         if p is None:
             return
         rec["pending"] = None
-        nid, kind, body_first, sql_from = p
+        nid, kind, body_first, sql_from, _key = p
         if kind == "comp":
             callees = []
             for e in self.sql_log[sql_from:]:
@@ -189,6 +190,15 @@ class Observer:
             self.decisions.append((nid, stmt == body_first))
 
     def _local(self, frame, event, arg):
+        try:
+            return self._local_inner(frame, event, arg)
+        except Exception as e:      # noqa: BLE001  - a tracer bug must not look like a failing operation
+            import traceback
+            self.errors.append(traceback.format_exc())
+            sys.settrace(None)
+            return None
+
+    def _local_inner(self, frame, event, arg):
         rec = self.recs.get(id(frame))
         if rec is None:
             return self._local
@@ -218,7 +228,14 @@ class Observer:
 
     # -- SQL statements
     def on_sql(self, k, sql):
-        frames = self.stack_chain(sys._getframe(2))
+        try:
+            self._on_sql(k, sql)
+        except Exception:           # noqa: BLE001
+            import traceback
+            self.errors.append(traceback.format_exc())
+
+    def _on_sql(self, k, sql):
+        frames = self.stack_chain(sys._getframe(3))
         loc = self.locate(frames)
         entry = {"k": k, "site": None, "occ": 0, "occ_base": 0, "key": loc, "ndec": len(self.decisions),
                  "callee": None, "sql": " ".join(sql.split())[:80]}
@@ -226,7 +243,7 @@ class Observer:
             entry["site"] = self.tr.sites.get(loc)
             entry["occ"] = entry["occ_base"] = max(self.visits.get(loc, 1) - 1, 0)
             # identity of the callee invocation (for comprehension loops)
-            f = sys._getframe(2)
+            f = sys._getframe(3)
             prev = None
             depth_target = len(loc[0])
             seen = -1
@@ -652,6 +669,8 @@ class Runner:
         N = api._c08_n
         fp = self.stats["fault_points"].setdefault(sc["name"], {"operation": sc["op"], "statements": {}, "injected": 0, "raised": 0})
         fp["statements"][cfg["id"]] = N
+        if obs and obs.errors:
+            raise RuntimeError("C08 observer failed: " + obs.errors[0])
         if obs and obs.unmapped:
             for u in obs.unmapped[:3]:
                 self.stats["unmapped_statements"].append(dict(u, scenario=sc["name"], config=cfg["id"]))
